@@ -103,4 +103,5 @@ def main() -> None:
     net.finish("bounded", "0..4 bindings from 7 (empty prefix, separator-free, non-ASCII, empty IRI) x 1..4 statements x 3 physical types x prefix table {0,1,2,4,8} x sink/generator input",
                "each case = (config, bindings, statements); non-trivial = at least one binding")
 if __name__ == "__main__":
-    main()
+    from common import run_main
+    run_main(main, "C14")
